@@ -542,4 +542,198 @@ theorem trace_fresh {s₀ : SendSpec} {tr s} (h : Trace.Ok s₀ tr s) (hnf : NoF
         rw [this, hout x hx]
         exact ⟨ih1, ih2⟩
 
+/-! ### retransmission: `Lost` bytes in the window -/
+
+/-- with a `Lost` byte `x` inside the window, the least offerable offset is `Lost`, not above `x`, and the same
+for every flow limit -/
+theorem firstCand_of_lost {s : SendSpec} (h : Inv s) {x : Nat} (hx : x < s.win) (hl : s.colour x = .lost)
+    (flow : Nat) :
+    s.firstCand flow ≤ x ∧ s.colour (s.firstCand flow) = .lost ∧
+    ∀ flow', s.firstCand flow' = s.firstCand flow := by
+  have hkx : s.firstCand flow ≤ x := least_le_of _ _ x (cand_of_lost hl)
+  have hnp : ∀ y, y ≤ x → s.colour y ≠ .pending := by
+    intro y hy hp
+    have := h.pend_up y x hy hp
+    rw [hl] at this; cases this
+  have hck : s.cand flow (s.firstCand flow) = true := least_spec _ _ (by unfold SendSpec.firstCand at hkx; omega)
+  have hlk : s.colour (s.firstCand flow) = .lost := by
+    rcases cand_iff.1 hck with h1 | ⟨h1, _⟩
+    · exact h1
+    · exact absurd h1 (hnp _ hkx)
+  refine ⟨hkx, hlk, fun flow' => ?_⟩
+  apply least_eq_of
+  · exact least_le _ _
+  · intro y hy
+    have := cand_false_iff.1 (least_min (s.cand flow) s.win y hy)
+    exact cand_false_iff.2 ⟨this.1, fun hp => absurd hp (hnp y (by omega))⟩
+  · intro _; exact cand_of_lost hlk
+
+theorem lostCount_flight (c : Nat → Colour) (a b : Nat) (hab : a ≤ b)
+    (hl : ∀ y, a ≤ y → y < b → c y = .lost) :
+    ∀ n, lostCount (setRange c a b (fun _ => .flighting)) n + (min b n - min a n) = lostCount c n
+  | 0 => by simp [lostCount]
+  | n + 1 => by
+    have ih := lostCount_flight c a b hab hl n
+    by_cases h : a ≤ n ∧ n < b
+    · have h1 : setRange c a b (fun _ => .flighting) n = .flighting := by
+        simp only [setRange_apply, if_pos h]
+      simp only [lostCount, h1, hl n h.1 h.2, reduceCtorEq, if_false, if_true]
+      omega
+    · have h1 : setRange c a b (fun _ => .flighting) n = c n := by
+        simp only [setRange_apply, if_neg h]
+      simp only [lostCount, h1]
+      split <;> omega
+
+theorem lostCount_eq_zero (c : Nat → Colour) : ∀ n, lostCount c n = 0 ↔ ∀ x, x < n → c x ≠ .lost
+  | 0 => by simp [lostCount]
+  | n + 1 => by
+    have ih := lostCount_eq_zero c n
+    simp only [lostCount]
+    constructor
+    · intro h x hx
+      by_cases hxn : x = n
+      · subst hxn; intro hl; rw [if_pos hl] at h; omega
+      · exact ih.1 (by omega) x (by omega)
+    · intro h
+      rw [if_neg (h n (by omega)), ih.2 (fun x hx => h x (by omega))]
+
+theorem lostCount_le (c : Nat → Colour) : ∀ n, lostCount c n ≤ n
+  | 0 => Nat.le_refl 0
+  | n + 1 => by
+    have := lostCount_le c n
+    simp only [lostCount]
+    split <;> omega
+
+/-! ### `ack`, `lose` as functions -/
+
+theorem setRange_const_idem (c : Nat → Colour) (a b : Nat) (k : Colour) :
+    setRange (setRange c a b (fun _ => k)) a b (fun _ => k) = setRange c a b (fun _ => k) := by
+  funext x
+  simp only [setRange_apply]
+  split <;> rfl
+
+theorem ack_ack (s : SendSpec) (a b : Nat) : (s.ack a b).ack a b = s.ack a b := by
+  cases s with
+  | mk colour size data maxData base =>
+    simp only [SendSpec.ack, setRange_const_idem, SendSpec.mk.injEq, true_and]
+    omega
+
+theorem lose_eq_self (s : SendSpec) (a b : Nat) (h : ∀ x, a ≤ x → x < b → s.colour x = .recved) :
+    s.lose a b = s := by
+  cases s with
+  | mk colour size data maxData base =>
+    simp only [SendSpec.lose, SendSpec.mk.injEq, and_true]
+    funext x
+    simp only [setRange_apply]
+    split
+    · have hx : colour x = .recved := h x ‹_ ∧ _›.1 ‹_ ∧ _›.2
+      rw [hx]; rfl
+    · rfl
+
+/-! ### composing traces -/
+
+theorem Trace.Ok.append {s₀ : SendSpec} {tr₁ s₁ tr₂ s₂} (h1 : Trace.Ok s₀ tr₁ s₁) (h2 : Trace.Ok s₁ tr₂ s₂) :
+    Trace.Ok s₀ (tr₁ ++ tr₂) s₂ := by
+  induction h2 with
+  | nil => rw [List.append_nil]; exact h1
+  | snoc _ hs ih => rw [← List.append_assoc]; exact Trace.Ok.snoc ih hs
+
+theorem Trace.Ok.single {s : SendSpec} {op obs s'} (hs : stepOk s op obs s') : Trace.Ok s [(op, obs)] s' :=
+  Trace.Ok.snoc (Trace.Ok.nil s) hs
+
+theorem Trace.Ok.cons {s : SendSpec} {op obs s₁ tr s'} (hs : stepOk s op obs s₁) (h : Trace.Ok s₁ tr s') :
+    Trace.Ok s ((op, obs) :: tr) s' :=
+  (Trace.Ok.single hs).append h
+
+/-! ### a concrete legal history (non-vacuity of the property theorems)
+
+capacity 10: write 6 bytes, pick `0..4` (fresh), pick `4..6` (fresh), lose `0..4`, ack `2..4` (ack after loss),
+pick `0..2` (retransmission, not fresh), write 8 more (window-limited: `size = 10`), ack `0..2`,
+lose `2..4` (loss after ack), extend the window to 20, ack `0..2` again. -/
+
+def exPred : Nat → Option Nat := fun _ => some 4
+
+theorem exPred_dom : PredDom exPred := by
+  intro x n h
+  simp only [exPred, Option.some.injEq] at h
+  subst h
+  decide
+
+theorem RangeDom.of_dec {s : SendSpec} {a b : Nat}
+    (h : a < b ∧ b ≤ s.size ∧ ∀ x, x < b → a ≤ x → s.colour x ≠ .pending) : RangeDom s a b :=
+  ⟨h.1, h.2.1, fun x h1 h2 => h.2.2 x h2 h1⟩
+
+def exB1 : List UInt8 := [1, 2, 3, 4, 5, 6]
+def exB2 : List UInt8 := [7, 8, 9, 10, 11, 12, 13, 14]
+
+def exS1 : SendSpec := (SendSpec.init 10).write exB1
+def exS2 : SendSpec := exS1.picked (.range 0 4 true)
+def exS3 : SendSpec := exS2.picked (.range 4 6 true)
+def exS4 : SendSpec := exS3.lose 0 4
+def exS5 : SendSpec := exS4.ack 2 4
+def exS6 : SendSpec := exS5.picked (.range 0 2 false)
+def exS7 : SendSpec := exS6.write exB2
+def exS8 : SendSpec := exS7.ack 0 2
+def exS9 : SendSpec := exS8.lose 2 4
+def exS10 : SendSpec := exS9.extend 20
+def exS : SendSpec := exS10.ack 0 2
+
+def exE1 : SendOp × SendObs := (.write exB1, .unit)
+def exE2 : SendOp × SendObs := (.pick exPred 100, .range 0 4 true)
+def exE3 : SendOp × SendObs := (.pick exPred 100, .range 4 6 true)
+def exE4 : SendOp × SendObs := (.lose 0 4, .unit)
+def exE5 : SendOp × SendObs := (.ack 2 4, .unit)
+def exE6 : SendOp × SendObs := (.pick exPred 100, .range 0 2 false)
+def exE7 : SendOp × SendObs := (.write exB2, .unit)
+def exE8 : SendOp × SendObs := (.ack 0 2, .unit)
+def exE9 : SendOp × SendObs := (.lose 2 4, .unit)
+def exE10 : SendOp × SendObs := (.extend 20, .unit)
+def exE11 : SendOp × SendObs := (.ack 0 2, .unit)
+
+/-- one write -/
+def exTr1 : List (SendOp × SendObs) := [exE1]
+/-- up to the acknowledgement after the loss: offsets 0, 1 are `Lost` -/
+def exTr5 : List (SendOp × SendObs) := [exE1, exE2, exE3, exE4, exE5]
+def exTr : List (SendOp × SendObs) := exTr5 ++ [exE6, exE7, exE8, exE9, exE10, exE11]
+
+theorem exStep1 : stepOk (SendSpec.init 10) (.write exB1) .unit exS1 := ⟨by decide, rfl⟩
+theorem exStep2 : stepOk exS1 (.pick exPred 100) (.range 0 4 true) exS2 := ⟨exPred_dom, by decide, rfl⟩
+theorem exStep3 : stepOk exS2 (.pick exPred 100) (.range 4 6 true) exS3 := ⟨exPred_dom, by decide, rfl⟩
+theorem exStep4 : stepOk exS3 (.lose 0 4) .unit exS4 := ⟨RangeDom.of_dec (by decide), rfl⟩
+theorem exStep5 : stepOk exS4 (.ack 2 4) .unit exS5 := ⟨RangeDom.of_dec (by decide), rfl⟩
+theorem exStep6 : stepOk exS5 (.pick exPred 100) (.range 0 2 false) exS6 := ⟨exPred_dom, by decide, rfl⟩
+theorem exStep7 : stepOk exS6 (.write exB2) .unit exS7 := ⟨by decide, rfl⟩
+theorem exStep8 : stepOk exS7 (.ack 0 2) .unit exS8 := ⟨RangeDom.of_dec (by decide), rfl⟩
+theorem exStep9 : stepOk exS8 (.lose 2 4) .unit exS9 := ⟨RangeDom.of_dec (by decide), rfl⟩
+theorem exStep10 : stepOk exS9 (.extend 20) .unit exS10 := ⟨by decide, rfl⟩
+theorem exStep11 : stepOk exS10 (.ack 0 2) .unit exS := ⟨RangeDom.of_dec (by decide), rfl⟩
+
+theorem exTr1_ok : Trace.Ok (SendSpec.init 10) exTr1 exS1 := Trace.Ok.single exStep1
+
+theorem exTr5_ok : Trace.Ok (SendSpec.init 10) exTr5 exS5 :=
+  .cons exStep1 <| .cons exStep2 <| .cons exStep3 <| .cons exStep4 <| .single exStep5
+
+theorem exTr_ok : Trace.Ok (SendSpec.init 10) exTr exS :=
+  exTr5_ok.append <| .cons exStep6 <| .cons exStep7 <| .cons exStep8 <| .cons exStep9 <| .cons exStep10 <|
+    .single exStep11
+
+theorem NoForget.cons {op obs} {tr : List (SendOp × SendObs)} (hop : op ≠ .forget) (h : NoForget tr) :
+    NoForget ((op, obs) :: tr) := by
+  intro e he
+  rcases List.mem_cons.1 he with rfl | he
+  · cases op <;> first | trivial | exact absurd rfl hop
+  · exact h e he
+
+theorem exTr5_noForget : NoForget exTr5 :=
+  .cons (by simp) <| .cons (by simp) <| .cons (by simp) <| .cons (by simp) <| .cons (by simp) .nil
+
+theorem exTr_noForget : NoForget exTr :=
+  NoForget.append_iff.2 ⟨exTr5_noForget,
+    .cons (by simp) <| .cons (by simp) <| .cons (by simp) <| .cons (by simp) <| .cons (by simp) <|
+      .cons (by simp) .nil⟩
+
+/-- the retransmission state also allows the answer `none` when the predicate refuses -/
+theorem exStepNone : stepOk exS5 (.pick (fun _ => none) 100) .none exS5 :=
+  ⟨fun _ _ h => (by cases h), Or.inr rfl, rfl⟩
+
 end GmQuic.SendSpec
